@@ -133,6 +133,16 @@ ext("C15", "; batches under crash and disk faults at store level",
 ext("C18", "", " Failed reloads include an unloadable named secret version and an unloadable route pull token.")
 ext("C20", "", " Eight names that differ from a tool's name by surrounding white space only are called with the arguments of the tool they resemble: each is either refused as unknown without effect, or held to that tool's gate and audit duties.")
 
+# later in the second session
+PUSHCRASH = " Push path under process death (dispatchcrash world): deliver routes on SQLite over the simulated disk, a kill or power loss at the k-th disk operation inside a worker's dequeue / attempt record / settlement or inside a publish, and between steps; a fresh node with a new dispatcher starts on the image: every message that was stored is still there (queued, leased by the dead process, dead-lettered) or one of its deliveries was answered with 2xx, nothing else appears, leases of the dead process expire on the simulated clock, and after the faults stop every message ends delivered or dead."
+ext("C01", "; push path under process death; another process opening and closing the database between operations", PUSHCRASH + " W-crash also lets a second process open the database file, list and close again between operations (hookaido mcp does so for every tool call).")
+ext("C05", "; push path under process death", PUSHCRASH)
+ext("C06", "; push path under process death", PUSHCRASH)
+ext("C07", "; store histories with DLQ requeue, cancel/resume", " Store part: header-carrying messages through redelivery after nack and expiry, dead-lettering and DLQ requeue, cancel and resume, by id and by filter, on both backends; payload, headers and trace of every listed and every dequeued message equal what was enqueued.")
+ext("C11", "; management mutation on top of an unreloaded operator edit", " W-mgmt variant: the file holds an operator's edit that nobody has reloaded (rotated global token, new route with tokens of its own) when a management mutation arrives; with a fault at every os call; after a 2xx the Pull API honours exactly the token lists the file declares.")
+ext("C14", "; operator mutations against concurrent worker calls (W-conc)", " Concurrency part (W-conc, one handle and two handles on the one file): by-id and by-filter cancel / requeue / resume of one caller interleaved statement by statement with dequeues and settlements of the other; a by-filter call counts as a selection followed by the id-based operation on what was selected, which the other caller may separate; results and final content must equal some order of those steps.")
+ext("C20", "", " config_apply write_and_reload whose reload cannot be verified (admin token of the submitted content cannot be loaded by the mcp process; the failure precedes any probe, no network is touched): the previous file must be back.")
+
 NA = {
  "C19": "config Parse/Format/Compile are pure functions of the text: no schedule, clock, I/O or fault for a simulation to decide (DESIGN.md §5)",
 }
